@@ -186,7 +186,9 @@ func oracleC13(l *harness.Live) (c struct {
 
 func TestC13Rapid(t *testing.T) {
 	runRapid(t, uC13, func(rt *rapid.T) {
-		doc := xgen.Doc(rt, xgen.DefaultDoc())
+		o := xgen.DefaultDoc()
+		shape := xgen.Shape(rt, &o)
+		doc := xgen.Doc(rt, o)
 		ctx := xgen.Context(rt, doc, 1)
 		g := xgen.NewG(rt, doc)
 		abs := 0
@@ -207,6 +209,7 @@ func TestC13Rapid(t *testing.T) {
 			}
 			harness.Report(rt, uC13, l, f)
 		}
+		info.labels = append(info.labels, shape)
 		uC13.Case(harness.Mix(doc.Hash(), uint64(ctx.ID), harness.Hash64(l.Expr)), info.nontrivial, info.labels, func() interface{} {
 			return l.Sample("result", describe(doc, info.want))
 		})
